@@ -80,6 +80,8 @@ inductive TOp
   | ix (op : WOp)
   | startFlash (ai signer endIdx : Nat)
   | endFlash (ai signer : Nat)
+  | startLiq (ai receiver : Nat) (recordOk : Bool)
+  | endLiq (ai signer : Nat) (recordOk walletOk : Bool) (feeMax : Int)   -- feeMax: the fee state's liquidation_max_fee
 
 /-- is this instruction a top-level marginfi `lending_account_end_flashloan` whose first account is margin account `ai`?
     (accounts are identified by their place in the world, as the real introspection identifies them by their address) -/
@@ -117,6 +119,41 @@ def startFlashloan (c : Ctx) (cur endIdx : Nat) (endIx : Option Bool) : Res Nat 
 def WState.setFlags (w : WState) (ai : Nat) (a : AcctV) (flags : Nat) : WState :=
   { w with accts := w.accts.set ai { a with flags } }
 
+/-! ### the receivership bracket
+
+`validate_instructions` as the start of a liquidation sees a transaction of the world machine (no compute-budget, refresh or
+record-init instructions are modelled, so "first after the whitelisted ones" is "first"): the first instruction is the single
+start; the last one is an end_liquidation; only start, end, withdraw and repay appear; the start is not the last instruction.
+Error codes in the order of the real checks (first / repeats, last, exclusive list, sanity). -/
+
+def isStartLiq : TOp → Bool
+  | .startLiq _ _ _ => true
+  | _ => false
+
+def isEndLiq : TOp → Bool
+  | .endLiq _ _ _ _ _ => true
+  | _ => false
+
+def liqAllowed : TOp → Bool
+  | .startLiq _ _ _ => true
+  | .endLiq _ _ _ _ _ => true
+  | .ix (.withdraw _ _ _ _ _ _) => true
+  | .ix (.repay _ _ _ _ _) => true
+  | _ => false
+
+def liqShape (tx : List TOp) (cur : Nat) : Res Unit :=
+  match tx with
+  | [] => .error .panic
+  | t0 :: rest =>
+    if !isStartLiq t0 then .error (.err E.StartNotFirst)
+    else if rest.any isStartLiq then .error (.err E.StartRepeats)
+    else if !((tx.getLast?).map isEndLiq).getD false then .error (.err E.EndNotLast)
+    else if !tx.all liqAllowed then .error (.err E.ForbiddenIx)
+    else if cur < tx.length - 1 then .ok () else .error (.err E.StartNotFirst)
+
+def WState.rctx (w : WState) (a : AcctV) (recordOk : Bool) (receiver : Nat) (walletOk : Bool) (feeMax : Int) : RCtx :=
+  { now := w.now, g := w.g, a, recordOk, receiver, walletOk, feeMax, risk := w.banks.map WBank.riskB }
+
 /-- instruction `i` of transaction `tx` on state `w`: the state it leaves, or `none` when it is refused -/
 def WState.stepIn (w : WState) (tx : List TOp) (i : Nat) : TOp → Option WState
   | .ix op => w.step? op
@@ -132,6 +169,20 @@ def WState.stepIn (w : WState) (tx : List TOp) (i : Nat) : TOp → Option WState
     | some a =>
       match endFlashloan (w.actx a signer) 1 with
       | .ok flags => some (w.setFlags ai a flags)
+      | .error _ => none
+    | none => none
+  | .startLiq ai receiver recordOk =>
+    match w.accts[ai]? with
+    | some a =>
+      match startLiquidation (w.rctx a recordOk receiver true 0) (liqShape tx i) with
+      | .ok o => some { w with accts := w.accts.set ai { a with flags := o.flags, recReceiver := o.receiver, recCache := o.cache } }
+      | .error _ => none
+    | none => none
+  | .endLiq ai signer recordOk walletOk feeMax =>
+    match w.accts[ai]? with
+    | some a =>
+      match endLiquidation (w.rctx a recordOk signer walletOk feeMax) 1 with
+      | .ok o => some { w with accts := w.accts.set ai { a with flags := o.flags, recReceiver := 0 } }
       | .error _ => none
     | none => none
 
